@@ -55,6 +55,7 @@ type Run struct {
 	finished   bool
 	resumeAfter *int64
 	partsDir, replayDir, attempt string
+	quietScenarios bool
 }
 
 type knownEntry struct {
